@@ -903,7 +903,8 @@ class VectorDerivative(SymDerivative, VectorExpr):  # type: ignore[misc]
         if is_vector_expr(symbol):
             return SymDerivative(self, symbol, evaluate=False)
 
-        return super().diff(symbol)
+        # NOTE: `super().diff(symbol)` would dispatch back to this method and recurse infinitely
+        return super()._eval_derivative(symbol)
 
 
 def vector_diff(expr: Expr, *variables: Expr, **kwargs: Any) -> Expr:
